@@ -399,7 +399,10 @@ def make_structure(sio, st: dict):
     return DatasetStructure(
         saved_data_description=[
             Attribute(name=a["name"], dtype=a["dtype"],
-                      shape=tuple(a["shape"])) for a in st["attrs"]
+                      shape=tuple(a["shape"]),
+                      custom_metadata=copy.deepcopy(
+                          a.get("custom_metadata", {})))
+            for a in st["attrs"]
         ],
         compression=st["compression"],
         examples_per_shard=st["eps"],
